@@ -37,6 +37,11 @@ type TaskSpec struct {
 	// Ledger, when set, is this task's own store content (then its store is private): runs on
 	// one parsed script against DIFFERENT ledgers must not see each other's balances
 	Ledger map[string]map[string]string `json:"ledger,omitempty"`
+	// Nested: this task's store (then private) runs the same parsed script itself, with the
+	// task's own inputs on a store of its own, before answering each call of the outer run --
+	// what a ledger does when resolving one account involves executing another script.
+	// "Re-entrant" taken literally: the inner run returns the solo result, and so does the outer.
+	Nested bool `json:"nested,omitempty"`
 }
 
 type Case struct {
@@ -74,6 +79,7 @@ type Result struct {
 	AnyMoney   bool
 	HarnessErr string
 	InterKey   string
+	Hung       bool // the tasks never finished: the process is not usable any further
 	Blocked    bool // the code under test blocked on a lock while another task was parked: case abandoned
 }
 
@@ -240,7 +246,8 @@ func Execute(c Case, keepTrace bool, ch chooser) (res Result) {
 	stores := map[int]*store.SimStore{}
 	cancels := []context.CancelFunc{}
 	type slot struct {
-		out []exec.Outcome
+		out    []exec.Outcome
+		nested []exec.Outcome
 	}
 	slots := make([]slot, len(c.Tasks))
 	s := newSched(ch, tr)
@@ -256,7 +263,8 @@ func Execute(c Case, keepTrace bool, ch chooser) (res Result) {
 			flagsSnap[t.FlagsGroup] = canonFlags(flagsInst[t.FlagsGroup])
 		}
 		var st *store.SimStore
-		if len(t.Faults) > 0 || t.Ledger != nil {
+		nested := t.Nested && len(t.Faults) == 0
+		if len(t.Faults) > 0 || t.Ledger != nil || nested {
 			st = store.New(c.inputsFor(t), c.plan(t)) // private
 		} else if x, ok := stores[t.StoreGroup]; ok {
 			st = x
@@ -275,12 +283,29 @@ func Execute(c Case, keepTrace bool, ch chooser) (res Result) {
 			t.Reps = 1 // the fault plan counts the calls of one run on the private store
 			c.Tasks[i].Reps = 1
 		}
-		if len(t.Faults) > 0 || t.Ledger != nil {
+		if len(t.Faults) > 0 || t.Ledger != nil || nested {
 			stores[-1-i] = st
 		}
 		pr := p.PR
 		if t.Noise {
 			pr = pn.PR
+		}
+		if nested {
+			depth := 0
+			st.Nested = func(site string) {
+				if depth > 0 || len(slots[i].nested) >= 4 {
+					return
+				}
+				depth++
+				pl := c.plan(t)
+				pl.Shared = false
+				inner := store.New(c.inputsFor(t), pl)
+				inner.Yield = s.yield
+				tr.Add("task %d: its store, asked %s, runs the script itself before answering", i, site)
+				slots[i].nested = append(slots[i].nested, exec.Run(ctx, pr, copyVars(t.Vars), inner, flagsMap(t)))
+				res.Probes["nested_runs_inside_a_store_call"]++
+				depth--
+			}
 		}
 		between := c.NoiseProg != nil && !t.Noise && len(t.Faults) == 0
 		s.add(func() {
@@ -318,6 +343,20 @@ func Execute(c Case, keepTrace bool, ch chooser) (res Result) {
 	}()
 	for _, cancel := range cancels {
 		cancel()
+	}
+	if s.hung {
+		res.Hung = true
+		res.Steps, res.Switches, res.Recorded = s.step, s.switches, s.rec
+		anyNested := false
+		for _, t := range c.Tasks {
+			anyNested = anyNested || t.Nested && len(t.Faults) == 0
+		}
+		if anyNested {
+			res.Violation = viol("re-entrancy", "run-never-returns-with-a-re-entrant-store", "the runs did not finish within "+hangTimeout.String()+" although every parked task had been released: a store that runs the script itself while answering blocks the run for good")
+		} else {
+			res.HarnessErr = "tasks did not finish within " + hangTimeout.String()
+		}
+		return res
 	}
 	if s.blocked.Load() {
 		res.Blocked = true
@@ -358,6 +397,13 @@ func Execute(c Case, keepTrace bool, ch chooser) (res Result) {
 					class = "panic-under-interleaving"
 				}
 				res.Violation = viol("solo-equivalence", class, fmt.Sprintf("task %d (vars %s) repetition %d returned %s ; alone on a fresh parse with fresh inputs it returns %s", i, canonVars(t.Vars), r+1, core.Truncate(o.Canon(), 500), core.Truncate(base[i].Canon(), 500)))
+				return res
+			}
+		}
+		for r, o := range slots[i].nested {
+			tr.Add("task %d nested run %d: %s", i, r, o.Canon())
+			if o.Canon() != base[i].Canon() {
+				res.Violation = viol("re-entrancy", "nested-run-differs-from-solo", fmt.Sprintf("task %d: its store ran the same parsed script with the same inputs while the outer run was waiting for the answer; that inner run returned %s ; alone it returns %s", i, core.Truncate(o.Canon(), 500), core.Truncate(base[i].Canon(), 500)))
 				return res
 			}
 		}
@@ -545,6 +591,13 @@ func genCase(r *rand.Rand) (Case, chooser) {
 			}
 		}
 	}
+	// a share of cases has a store that runs the script itself (re-entrant use)
+	if r.IntN(6) == 0 {
+		i := r.IntN(len(c.Tasks))
+		if len(c.Tasks[i].Faults) == 0 && !c.Tasks[i].Noise {
+			c.Tasks[i].Nested = true
+		}
+	}
 	// a share of cases runs an ill-formed script (a labelled defect of the C12 engine): errors
 	// must be as repeatable and as private to their run as results are
 	if r.IntN(8) == 0 {
@@ -730,6 +783,16 @@ func Worker(o core.WorkerOpts) *core.Report {
 			ch = newRecorded(nil)
 		}
 		res := Execute(c, false, ch)
+		if res.Hung {
+			// goroutines of the code under test are blocked for good: nothing more can be decided here
+			l.Stop = true
+			if res.Violation != nil && l.ShouldReport(*res.Violation) {
+				l.AddReplay(*res.Violation, caseSeed, c, nil, res.Trace.Events, res.Trace.Hash(), 0, "controlled")
+			} else if res.HarnessErr != "" {
+				l.Rep.HarnessErr = res.HarnessErr
+			}
+			return
+		}
 		if res.Blocked {
 			if res.Violation != nil && l.ShouldReport(*res.Violation) {
 				v := *res.Violation
